@@ -171,6 +171,34 @@ def run(ctx):
             if results.get(t) != seq:
                 ctx.fail("a concurrent call returns another outcome than the sequential call on the same input",
                          {"inputs": per_thread, "schedule": order, "thread": t, "got": results.get(t), "sequential": seq})
+    # free-running stress with a tiny switch interval (no scheduler): byte-code level preemption
+    old = sys.getswitchinterval()
+    try:
+        sys.setswitchinterval(1e-6)
+        for i in range(ctx.budget(3, 40)):
+            qs = []
+            for _ in range(6):
+                qg = gen.QueryGen(rng, bad_nums=rng.random() < 0.2)
+                qs.append(gen.malformed(rng, qg) if rng.random() < 0.25 else qg.query())
+            expected = [parsing.impl_parse(q, "module")[0] for q in qs]
+            got = [None] * len(qs)
+
+            def work(k):
+                for _ in range(5):
+                    got[k] = parsing.impl_parse(qs[k], "thread")[0]
+            ths = [threading.Thread(target=work, args=(k,)) for k in range(len(qs))]
+            for th in ths:
+                th.start()
+            for th in ths:
+                th.join(timeout=120)
+            ctx.case(("stress", repr(qs)), nontrivial=True)
+            ctx.count("stress rounds")
+            if got != expected:
+                k = next(k for k in range(len(qs)) if got[k] != expected[k])
+                ctx.fail("under free-running threads a call returns another outcome than the sequential call",
+                         {"inputs": qs, "thread": k, "got": got[k], "sequential": expected[k]})
+    finally:
+        sys.setswitchinterval(old)
     # audit of the shared parser object
     log = audit_accesses(I)
     allowed_set = {"statestack", "symstack", "state", "token", "errorok"}
